@@ -718,5 +718,6 @@ Definition weight2 : prog := [Lk 5; Lk 6; Lk 1; Lk 4; Ul 4; Ul 1; Ul 6; Ul 5].
 Definition add3 : prog := [Lk 0; Lk 1; Lk 4; Ul 4; Ul 1; Ul 0].
 
 Definition sys_pinned : list prog := [delete_pinned; weight1; weight2].
-Definition sys_fixed : list prog := [delete_fixed; weight1; weight2; add3].
+Definition sys_fixed : list prog := [delete_fixed; weight1; weight2].
+Definition sys_fixed_add : list prog := [delete_fixed; weight1; add3].
 End LK.
